@@ -5,6 +5,7 @@
   The stack top is the LAST list element, as in the Python lists.
 -/
 import Gamba.Model.DFA
+import Gamba.Model.CFG
 namespace Gamba
 
 structure PDA (σ τ γ : Type) where
@@ -178,5 +179,60 @@ def SPDA.toPushPopS (P0 : SPDA) : Except Err SPDA :=
           delta := addMove (addMove acc.delta (p, a, u) (m, eps)) (m, P.eps, eps) (q, v) }) acc
   let acc := P.delta.foldl step { Q := P.Q, delta := [] }
   .ok { P with Q := acc.Q, Gamma := P.Gamma ++ [dummy], delta := acc.delta }
+
+end Gamba
+
+/-! ### PDA → CFG (Sipser's triple construction, `pda_to_cfg`, as repaired: empty-stack normalisation first) -/
+namespace Gamba
+
+def pdaVar (p q : String) : String := p ++ "'" ++ q
+
+/-- the three rule families of Sipser's construction for a PDA `P` (meant to be in push/pop form):
+    `A_pq → a A_rs b` for a push of `u` from `p` to `r` reading `a` and a pop of the same `u` from `s` to `q` reading `b`;
+    `A_pq → A_pr A_rq`; `A_pp → ε`.  Right-hand sides are lists of `(isVariable, name)`. -/
+def SPDA.tripleRules (P : SPDA) : List (String × List (Bool × String)) :=
+  let eps := P.eps
+  let trans := P.delta.flatMap fun e => e.2.map fun t => (e.1.1, e.1.2.1, e.1.2.2, t.1, t.2)
+  let pushes := trans.filter fun t => t.2.2.1 = eps
+  let pops := trans.filter fun t => t.2.2.1 ≠ eps
+  let term := fun (a : String) => if a = eps then [] else [(false, a)]
+  let r1 := P.Gamma.flatMap fun u =>
+    (pushes.filter fun t => t.2.2.2.2 = u).flatMap fun (p, a, _, r, _) =>
+      (pops.filter fun t => t.2.2.1 = u).map fun (s, b, _, q, _) =>
+        (pdaVar p q, term a ++ [(true, pdaVar r s)] ++ term b)
+  let r2 := P.Q.flatMap fun p => P.Q.flatMap fun q => P.Q.map fun r =>
+    (pdaVar p q, [(true, pdaVar p r), (true, pdaVar r q)])
+  let r3 := P.Q.map fun p => (pdaVar p p, ([] : List (Bool × String)))
+  r1 ++ r2 ++ r3
+
+/-- the grammar of a PDA already normalised (push/pop form, one accepting state `qAccept`) -/
+def SPDA.tripleCfg (P : SPDA) (qAccept : String) : CFG :=
+  { V := P.Q.flatMap fun p => P.Q.map fun q => pdaVar p q
+    Sigma := P.Sigma
+    S := pdaVar P.q0 qAccept
+    R := P.tripleRules.zipIdx.map fun (r, i) =>
+      ({ lhs := r.1, aid := i, rhs := r.2.map fun x => if x.1 then Sym.v x.2 else Sym.t x.2 } : CRule) }
+
+/-- the normalisation pipeline of `pda_to_cfg` (as repaired: empty-stack acceptance first) -/
+def SPDA.normalizeForCfg (P0 : SPDA) (acceptsOnEmptyStack : Bool := false) : Except Err SPDA := do
+  let P1 ← if acceptsOnEmptyStack then pure P0 else P0.toAcceptOnEmptyStackS
+  let P2 := if (dedup P1.F).length ≠ 1 then P1.toOneAcceptingS else P1
+  if P2.isPushPop then pure P2 else P2.toPushPopS
+
+/-- `pda_to_cfg(P, accepts_on_empty_stack)` as raw data (V, Sigma, rules, S) -/
+def SPDA.toCfgRaw (P0 : SPDA) (acceptsOnEmptyStack : Bool := false) :
+    Except Err (List String × List String × List (String × List (Bool × String)) × String) := do
+  let P ← P0.normalizeForCfg acceptsOnEmptyStack
+  match P.F with
+  | [] => .error .stopIteration
+  | qAccept :: _ =>
+    pure (P.Q.flatMap fun p => P.Q.map fun q => pdaVar p q, P.Sigma, P.tripleRules, pdaVar P.q0 qAccept)
+
+/-- `pda_to_cfg` as a `CFG` value (every rule its own `Alternative` object) -/
+def SPDA.toCfg (P0 : SPDA) (acceptsOnEmptyStack : Bool := false) : Except Err CFG := do
+  let P ← P0.normalizeForCfg acceptsOnEmptyStack
+  match P.F with
+  | [] => .error .stopIteration
+  | qAccept :: _ => pure (P.tripleCfg qAccept)
 
 end Gamba
